@@ -3,6 +3,7 @@ package monitor
 import (
 	"bytes"
 	"fmt"
+	"reflect"
 
 	"github.com/free5gc/nas/nasConvert"
 	"github.com/free5gc/nas/uePolicyContainer"
@@ -225,6 +226,9 @@ func c18Command(c *core.Ctx, k *core.Case) {
 	if d := cmpSubLists(model, back); d != "" {
 		c.Fail(k, "list-roundtrip", fmt.Sprintf("%s (bytes %s)", d, hx(content)))
 	}
+	// every level's own MarshalBinary (list, sublist, contents, instruction, section, part):
+	// results are the caller's and survive later calls
+	c.Count("marshal_nodes", int64(marshalEverywhere(c, k, "uePolicyContainer", reflect.ValueOf(&lc).Elem(), 0)))
 	// second marshal after the list was extended through the API: every length must be
 	// recomputed from the new content (nothing learnt by the first marshal may stick)
 	if len(model) > 0 {
@@ -291,6 +295,81 @@ func c18Command(c *core.Ctx, k *core.Case) {
 		c.Fail(k, "command-roundtrip-classmark", fmt.Sprintf("network classmark not recovered (wire %s)", hx(wire)))
 	}
 	c.Cover("sublists", fmt.Sprint(len(model)))
+}
+
+// c18Wire renders one delivery message without the library: kind 0/1 command
+// without / with network classmark, 2 complete, 3 reject.
+func c18Wire(r *prng.Rand, kind int) []byte {
+	pti := r.Byte()
+	switch kind {
+	case 0, 1:
+		content := refSubLists(genSubs(r, 1+r.Intn(3)))
+		w := append([]byte{pti, uePolicyContainer.MsgTypeManageUEPolicyCommand, 0x6c}, be16(len(content))...)
+		w = append(w, content...)
+		if kind == 1 {
+			w = append(w, 0x42, 0x02, byte(r.Intn(2)), 0x00)
+		}
+		return w
+	case 2:
+		return []byte{pti, uePolicyContainer.MsgTypeManageUEPolicyComplete}
+	}
+	var model []uSubRes
+	for i := 1 + r.Intn(3); i > 0; i-- {
+		s := uSubRes{mcc: r.Range(99, 999), mnc: r.Range(9, 999)}
+		for j := r.Intn(3); j > 0; j-- {
+			s.results = append(s.results, uResult{uint16(r.Uint32()), uint16(r.Uint32())})
+		}
+		model = append(model, s)
+	}
+	content := refSubResults(model)
+	w := append([]byte{pti, uePolicyContainer.MsgTypeManageUEPolicyReject, 0x6d}, be16(len(content))...)
+	return append(w, content...)
+}
+
+// oracle "delivery-reuse": I=[seed, n] — a sequence of delivery messages decoded into ONE
+// UePolDeliverySer value; after every step the body of the message just decoded must equal
+// what a fresh value decodes to and re-encode to the same octets.
+func c18DeliveryReuse(c *core.Ctx, k *core.Case) {
+	r := prng.New(uint64(k.I[0]))
+	rx := uePolicyContainer.NewUePolDeliverySer()
+	var seq []int
+	for i := 0; i < int(k.I[1]); i++ {
+		kind := []int{0, 1, 1, 0, 2, 3}[r.Intn(6)]
+		seq = append(seq, kind)
+		w := c18Wire(r, kind)
+		err := rx.UePolDeliverySerDecode(cloneB(w))
+		fresh := uePolicyContainer.NewUePolDeliverySer()
+		ferr := fresh.UePolDeliverySerDecode(cloneB(w))
+		c.Eval(1)
+		if (err == nil) != (ferr == nil) {
+			c.Fail(k, "delivery-reuse-changes-verdict", fmt.Sprintf("step %d of kinds %v: reused value err=%v, fresh value err=%v (wire %s)", i, seq, err, ferr, hx(w)))
+			return
+		}
+		if err != nil {
+			c.Fail(k, "delivery-reference-rejected", fmt.Sprintf("step %d of kinds %v: a well-formed delivery message is rejected: %v (wire %s)", i, seq, err, hx(w)))
+			return
+		}
+		var a, b interface{}
+		switch kind {
+		case 0, 1:
+			a, b = rx.ManageUEPolicyCommand, fresh.ManageUEPolicyCommand
+		case 2:
+			a, b = rx.ManageUEPolicyComplete, fresh.ManageUEPolicyComplete
+		default:
+			a, b = rx.ManageUEPolicyReject, fresh.ManageUEPolicyReject
+		}
+		if !reflect.DeepEqual(a, b) {
+			c.Fail(k, "delivery-reused-differs-from-fresh", fmt.Sprintf("step %d of kinds %v (0/1 command without/with classmark, 2 complete, 3 reject): the body decoded into a reused UePolDeliverySer differs from a fresh decode of %s", i, seq, hx(w)))
+			return
+		}
+		o1, e1 := rx.UePolDeliverySerEncode()
+		o2, e2 := fresh.UePolDeliverySerEncode()
+		if (e1 == nil) != (e2 == nil) || !bytes.Equal(o1, o2) {
+			c.Fail(k, "delivery-reused-encodes-differently", fmt.Sprintf("step %d of kinds %v: re-encoding gives %s (err %v), from a fresh decode %s (err %v)", i, seq, hx(o1), e1, hx(o2), e2))
+			return
+		}
+	}
+	c.Count("delivery_reuse_sequences", 1)
 }
 
 // oracle "reject": I=[seed, nSub]   (also covers the complete message)
@@ -473,7 +552,7 @@ func init() {
 			"Result.Cause is forced to 0x6F by the library on both sides; equality is on what the API lets a caller express",
 			"the identifier octet the library writes in front of the mandatory section management list is taken as emitted (round trip and lengths are what the statement asks)",
 		},
-		Oracles:      map[string]func(*core.Ctx, *core.Case){"command": c18Command, "reject": c18Reject, "plmn": c18Plmn, "plmn-one": c18PlmnOne, "total": c18Total, "total-sweep": c18Sweep},
+		Oracles:      map[string]func(*core.Ctx, *core.Case){"delivery-reuse": c18DeliveryReuse, "command": c18Command, "reject": c18Reject, "plmn": c18Plmn, "plmn-one": c18PlmnOne, "total": c18Total, "total-sweep": c18Sweep},
 		StallSeconds: 30,
 		Floors: func(tier string, cov map[string]map[string]int64, cnt map[string]int64) []string {
 			var f []string
@@ -556,6 +635,13 @@ func init() {
 				}
 			}})
 		}
+		us = append(us, core.Unit{Name: "delivery-reuse", Weight: 20, Run: func(c *core.Ctx) {
+			for i := 0; i < c.Pick(600, 20000); i++ {
+				k := &core.Case{Oracle: "delivery-reuse", Target: "uePolicyContainer.UePolDeliverySer", I: []int64{int64(c.R.Uint64() >> 1), int64(c.R.Range(2, 8))}}
+				c.Do(k)
+				c.NonTrivial(k.Hash())
+			}
+		}})
 		us = append(us, core.Unit{Name: "command-big", Weight: 60, Run: func(c *core.Ctx) {
 			// list contents up to the 16-bit maximum, with and without the trailing classmark:
 			// the octets behind the length field then number 65536 and more
